@@ -123,7 +123,10 @@ partial def runLoop {Ïƒ : Type} (h : IO.FS.Stream) (step : Ïƒ â†’ List String â†
   let ts := tokens line
   if ts.isEmpty then runLoop h step s t (lineNo + 1) hist
   else
-    let (s', v, notes) := step s ts
+    let (s', v, notes) :=
+      match (splitArrow ts).2 with
+      | "PANIC" :: msg => (s, Verdict.specfail s!"implementation panicked: {String.intercalate " " msg}", ["impl-panic"])
+      | _ => step s ts
     match v.render lineNo line with
     | some msg => IO.println msg
     | none => pure ()
